@@ -192,11 +192,33 @@ struct Decl {
 fn decl_seeds() -> &'static Vec<(String, u8, Vec<u8>, Vec<codec::Field>)> {
     static S: std::sync::OnceLock<Vec<(String, u8, Vec<u8>, Vec<codec::Field>)>> = std::sync::OnceLock::new();
     S.get_or_init(|| {
-        crate::props::c05::seed_packets()
+        let mut seeds = crate::props::c05::seed_packets();
+        // keys of algorithms the library does not know: their material is opaque and sized by
+        // the packet (v4) or by a 4-octet count (v6)
+        for alg in [99u8, 21, 100, 110, 4] {
+            for tag in [6u8, 14, 5, 7] {
+                let mut v6 = vec![6u8, 0x65, 0x00, 0x00, 0x01, alg, 0, 0, 0, 6];
+                v6.extend_from_slice(&[1, 2, 3, 4, 5, 6]);
+                let mut v4 = vec![4u8, 0x65, 0x00, 0x00, 0x01, alg];
+                v4.extend_from_slice(&[1, 2, 3, 4, 5, 6]);
+                if matches!(tag, 5 | 7) {
+                    // unprotected secret part
+                    v6.extend_from_slice(&[0, 9, 9, 9]);
+                    v4.extend_from_slice(&[0, 9, 9, 9, 0, 27]);
+                }
+                seeds.push((format!("v6 key packet (tag {tag}) of unknown algorithm {alg}"), tag, v6));
+                seeds.push((format!("v4 key packet (tag {tag}) of unknown algorithm {alg}"), tag, v4));
+            }
+        }
+        seeds
             .into_iter()
             .filter(|(_, _, b)| b.len() <= 4096)
             .map(|(d, t, b)| {
-                let fields = codec::decode_packet(t, &b).map(|d| d.fields.into_iter().filter(|f| is_length_kind(&f.kind)).collect()).unwrap_or_default();
+                let mut fields: Vec<codec::Field> = codec::decode_packet(t, &b).map(|d| d.fields.into_iter().filter(|f| is_length_kind(&f.kind)).collect()).unwrap_or_default();
+                // the v6 key material count, also where the reference does not know the algorithm
+                if matches!(t, 5 | 6 | 7 | 14) && b.first() == Some(&6) && b.len() >= 10 && !fields.iter().any(|f| f.start == 6 && f.end == 10) {
+                    fields.push(codec::Field { path: "key/material_len".into(), kind: Kind::KeyMaterialLen, start: 6, end: 10 });
+                }
                 (d, t, b, fields)
             })
             .collect()
@@ -281,7 +303,7 @@ fn run_decl(c: &Decl) -> Outcome {
 // ---------------------------------------------------------------------------------------------
 // (b) repetition families (run in worker processes)
 
-const FAMILIES: [&str; 21] = [
+const FAMILIES: [&str; 23] = [
     "n marker packets before a literal message -> Message::from_bytes + read",
     "n padding packets before a literal message -> Message::from_bytes + read",
     "n marker packets -> PacketParser",
@@ -303,6 +325,8 @@ const FAMILIES: [&str; 21] = [
     "n lines of text before the armor -> Dearmor read_to_end (slice source)",
     "n lines of text before the armor, source refilled 8 KiB at a time -> Dearmor read_to_end",
     "armored certificate with n header lines -> SignedPublicKey::from_armor_single / from_string",
+    "armor whose first header line holds only a form feed, then n header lines and no blank line, source refilled 8 KiB at a time -> Dearmor read_to_end",
+    "armor whose first header line holds only a vertical tab / no-break space, then n header lines, a blank line and a body, source refilled 8 KiB at a time -> Dearmor read_to_end",
 ];
 
 fn family_input(fam: usize, n: usize) -> Vec<u8> {
@@ -358,6 +382,15 @@ fn family_input(fam: usize, n: usize) -> Vec<u8> {
         18 | 19 => {
             let mut v = rep(b"some text\n", n);
             v.extend_from_slice(b"-----BEGIN PGP MESSAGE-----\n\nyxJiAAAAAABwYXlsb2Fk\n-----END PGP MESSAGE-----\n");
+            v
+        }
+        21 | 22 => {
+            let mut v = b"-----BEGIN PGP MESSAGE-----\n".to_vec();
+            v.extend_from_slice(if fam == 21 { b"\x0c\n" } else { b"\x0b\xc2\xa0\n" });
+            v.extend_from_slice(&rep(b"Comment: x\n", n));
+            if fam == 22 {
+                v.extend_from_slice(b"\nyxJiAAAAAABwYXlsb2Fk\n-----END PGP MESSAGE-----\n");
+            }
             v
         }
         20 => {
@@ -480,7 +513,7 @@ fn family_run(fam: usize, x: &[u8]) -> &'static str {
                 }
             }
         }
-        17 | 19 => {
+        17 | 19 | 21 | 22 => {
             let mut d = Dearmor::new(BufReader::new(x));
             let mut sink = [0u8; 4096];
             loop {
@@ -981,7 +1014,7 @@ pub fn check(ctx: &Ctx) {
         ctx,
         "repetition",
         true,
-        "21 repetition families (markers, padding, signatures, user ids, prefixed / one-pass signatures around a literal, certificates with n user ids / certifications / subkeys, n certificates, armor header lines / leading text (slice source and 8 KiB-refill source) / blank lines / body lines, armored certificate with n headers, cleartext dash-escaped lines, subpackets in one area, user attribute packets), each at n, 2n, 8n (n = 25000 quick / 100000 thorough; signature-verifying families 1000..25000): allocation work (bytes, requests; deterministic) within x2.6 / x11, CPU time (best of 3, re-measured before it is believed) at 8n within x24 of n (linear x8, quadratic x64), peak <= 4 MiB + 96 x input; each family in its own watchdogged process (stack overflow / hang = finding)",
+        "23 repetition families (markers, padding, signatures, user ids, prefixed / one-pass signatures around a literal, certificates with n user ids / certifications / subkeys, n certificates, armor header lines / leading text (slice source and 8 KiB-refill source) / blank lines / body lines, armored certificate with n headers, header sections that start with a whitespace-only line of FF / VT / NBSP, cleartext dash-escaped lines, subpackets in one area, user attribute packets), each at n, 2n, 8n (n = 25000 quick / 100000 thorough; signature-verifying families 1000..25000): allocation work (bytes, requests; deterministic) within x2.6 / x11, CPU time (best of 3, re-measured before it is believed) at 8n within x24 of n (linear x8, quadratic x64), peak <= 4 MiB + 96 x input; each family in its own watchdogged process (stack overflow / hang = finding)",
         FAMILIES.len() as u64,
         1,
         Duration::from_secs(tier.pick(120, 1200)),
